@@ -287,7 +287,7 @@ func ndClasses(in []byte) (cls []string, nontrivial bool) {
 }
 
 func TestC08_Lines(t *testing.T) {
-	runRapid(t, "C08_Lines", nCases(30_000, 800_000), func(t *rapid.T) {
+	runRapid(t, "C08_Lines", nCases(30_000, 600_000), func(t *rapid.T) {
 		in, gen := genNDInput(t)
 		c08Run(t, ndCase{In: in})
 		cls, nt := ndClasses(in)
